@@ -1019,3 +1019,53 @@ def rule_closed_stream_replaced(ctx):
                 ctx.violated("STREAMKEPT", key, f.where(line), "when closing the stream of a record that is still referenced fails, the routine leaves with `file_rec->file` NULL: the file ids that are still out wrap no stream")
     ctx.floor("STREAMKEPT", 1, n, "(tested closes of a shared file record's stream)")
     return n
+
+
+class _PosAfterTransfer(PathAnalysis):
+    """user: 0 = no stdio transfer yet, 1 = transfer made and last_op not assigned since, 2 = assigned"""
+
+    def __init__(self, prog):
+        super().__init__(prog)
+        self.exits = []
+
+    def init_user(self, func):
+        return 0
+
+    def on_stmt(self, func, bid, idx, stmt, env, user):
+        for n in walk(stmt["e"], True):
+            if n[0] == "call" and n[1] in ("fread", "fwrite"):
+                user = 1
+            elif n[0] == "asg" and mem_field(n[2]) == ("filerec_t", "last_op"):
+                user = 2
+        return user
+
+    def on_exit(self, func, bid, retval, env, user):
+        self.exits.append((classify_ret(retval, self.fails), user))
+
+
+def rule_failed_transfer_forgets_position(ctx):
+    """POSUNKNOWN (C01, C16): the file record remembers where the stream stands (`f_cur_off`, `last_op`) so that HPseek can skip
+    a seek to the place it is already at.  That memory is only as good as the last transfer: when fread/fwrite fails the
+    stream stands wherever the partial transfer left it, so every failing exit of a routine that made a stdio transfer has
+    assigned `last_op` after it (to "unknown").  Otherwise the next seek to the remembered offset is skipped and the write
+    that follows lands somewhere else - in the replay, ten bytes into the element."""
+    prog = ctx.prog
+    n = 0
+    for f in prog.lib_funcs():
+        if not f.rel.endswith("hdf/src/hfile.c"):
+            continue
+        has_xfer = any(x[0] == "call" and x[1] in ("fread", "fwrite") for _b, _i, _s, x in f.nodes(True))
+        sets = any(x[0] == "asg" and mem_field(x[2]) == ("filerec_t", "last_op") for _b, _i, _s, x in f.nodes(True))
+        if not (has_xfer and sets):
+            continue
+        n += 1
+        key = "POSUNKNOWN:%s" % f.name
+        a = _PosAfterTransfer(prog)
+        a.fails = fail_values(f, prog)
+        a.run(f)
+        if any(cls == "fail" and u == 1 for cls, u in a.exits):
+            ctx.violated("POSUNKNOWN", key, f.where(), "a failing exit follows the stdio transfer with `last_op` left as it was: the record still claims a known position and the next HPseek to it is skipped")
+        else:
+            ctx.holds("POSUNKNOWN", key, f.where(), "every failing exit after the stdio transfer has reassigned last_op", nontrivial=True)
+    ctx.floor("POSUNKNOWN", 2, n, "(routines that transfer through stdio and maintain the cached position)")
+    return n
